@@ -64,7 +64,7 @@ CORE_OBJS   := $(addprefix $(B)/core/,$(CORE_SRCS:.c=.o))
 
 WRAP := -Wl,--wrap=malloc,--wrap=calloc,--wrap=realloc,--wrap=free
 
-WORLDS := region glyph16 glyph64 glyph fault hist cfg thread
+WORLDS := region glyph16 glyph64 glyph fault hist hist16 cfg thread sample
 
 .PHONY: worlds clean all
 all: worlds
@@ -121,6 +121,10 @@ $(B)/region: $(B)/worlds/region.o $(CORE_OBJS) $(B)/libpixman.a
 $(B)/fault: $(B)/worlds/fault.o $(CORE_OBJS) $(B)/libpixman.a
 	$(LINK)
 $(B)/hist: $(B)/worlds/hist.o $(CORE_OBJS) $(B)/libpixman.a
+	$(LINK)
+$(B)/hist16: $(B)/worlds/hist.o $(B)/pixman-small/pixman-glyph-16.o $(CORE_OBJS) $(B)/libpixman.a
+	$(LINK)
+$(B)/sample: $(B)/worlds/sample.o $(CORE_OBJS) $(B)/libpixman.a
 	$(LINK)
 $(B)/cfg: $(B)/worlds/cfg.o $(CORE_OBJS) $(B)/libpixman.a
 	$(LINK)
